@@ -18,6 +18,8 @@ def plan(tier, seed):
             ch("C06", F, "h_columns_arg", t, ["api.ParquetFile.to_pandas", "api.ParquetFile._get_index",
                                               "util.check_column_names"]),
             ch("C06", F, "h_range_index", t, ["api.ParquetFile.pre_allocate"]),
+            ch("C06", "vf/pyshim/h_c17.py", "h_slice_dtypes", t,
+               ["api.ParquetFile.__getitem__", "api.ParquetFile.__getstate__", "api.ParquetFile.__setstate__"]),
             dict(name="C06-lemma-range-index", kind="pyfunc", timeout=300,
                  payload=dict(func="vf.pyshim.lemmas:range_index",
                               kwargs=dict(max_step=6 if tier == "quick" else 40)))]
